@@ -20,6 +20,8 @@ import (
 //	R-unguarded    such a field for which no access holds any mutex at all
 //	R-process-state     exec.Cmd.ProcessState is read only after Wait is known to have returned
 //	R-loop-capture      (shared with C05)
+//	R-guarded-value     every use of a map loaded from a member that is updated in place under a lock holds that lock,
+//	                    also after the value was returned, passed on or captured
 //	R-exception         publish-by-close idiom recognised by shape
 func init() { Registry["C20"] = checkC20 }
 
@@ -186,6 +188,7 @@ func checkC20(c *Ctx) {
 	}
 	c20ProcessState(c)
 	c05LoopCapture(c, "R-loop-capture")
+	c20GuardedValue(c, guards)
 }
 
 // publishByClose: see publishByCloseReason.
@@ -275,4 +278,149 @@ func c20ProcessState(c *Ctx) {
 	if n == 0 {
 		c.R.Hold("R-process-state", "no unsynchronised read of exec.Cmd.ProcessState", "", "the child's state is learned through the watcher's channel")
 	}
+}
+
+// c20GuardedValue (R-guarded-value): a map that is mutated in place under a lock must also be READ under that lock —
+// not only where the member is loaded, but wherever the loaded map value is used: a reference taken under the lock and
+// handed out (returned, passed on, captured) is still the shared map. Every lookup, range or len of such a value, in
+// this function, its callees or the callers it is returned to, holds the guard. (Members that are only ever replaced
+// wholesale are not concerned: the old map is immutable once unpublished.)
+func c20GuardedValue(c *Ctx, guards []*FieldGuard) {
+	ls := c.Locks()
+	n := 0
+	for _, g := range guards {
+		if g.Guard == "" {
+			continue
+		}
+		if _, isMap := g.Accesses[0].Type.Underlying().(*types.Map); !isMap {
+			continue
+		}
+		inPlace := false
+		for _, a := range g.Accesses {
+			if a.Kind == "map-update" || a.Kind == "map-delete" {
+				inPlace = true
+			}
+		}
+		if !inPlace {
+			continue
+		}
+		type key struct {
+			v  ssa.Value
+			fn *ssa.Function
+		}
+		seen := map[key]bool{}
+		reported := map[ssa.Instruction]bool{}
+		var uses func(v ssa.Value, fn *ssa.Function, d int, via string)
+		check := func(at ssa.Instruction, fn *ssa.Function, what, via string) {
+			if reported[at] {
+				return
+			}
+			reported[at] = true
+			n++
+			ok := ls.At(at).Has(g.Guard)
+			c.R.Check(ok, "R-guarded-value", sprintf("%s of the %s map in %s", what, g.Field, fname(fn)), c.Pos(at.Pos()), "holds "+g.Guard,
+				sprintf("%s does a %s on the map of %s without holding %s%s: the map is updated in place under that lock by other goroutines, so this is an unsynchronised map read (the runtime may abort with 'concurrent map read and map write')", fname(fn), what, g.Field, g.Guard, via))
+		}
+		uses = func(v ssa.Value, fn *ssa.Function, d int, via string) {
+			if d > 5 || v == nil || seen[key{v, fn}] || v.Referrers() == nil {
+				return
+			}
+			seen[key{v, fn}] = true
+			for _, r := range *v.Referrers() {
+				switch x := r.(type) {
+				case *ssa.Lookup:
+					if x.X == v {
+						check(x, fn, "lookup", via)
+					}
+				case *ssa.Range:
+					if x.X == v {
+						check(x, fn, "range", via)
+					}
+				case *ssa.Phi:
+					uses(x, fn, d, via)
+				case *ssa.ChangeType:
+					uses(x, fn, d, via)
+				case *ssa.MakeInterface:
+					// boxed: not followed
+				case *ssa.Store:
+					if al, ok := x.Addr.(*ssa.Alloc); ok && x.Val == v {
+						for _, lr := range *al.Referrers() {
+							if ld, ok := lr.(*ssa.UnOp); ok && ld.Op == token.MUL {
+								uses(ld, fn, d, via)
+							}
+						}
+					}
+				case *ssa.MakeClosure:
+					if cl, ok := x.Fn.(*ssa.Function); ok {
+						for i, b := range x.Bindings {
+							if b == v && i < len(cl.FreeVars) {
+								uses(cl.FreeVars[i], cl, d+1, via+", captured by "+fname(cl))
+							}
+						}
+					}
+				case *ssa.Return:
+					for i, rv := range x.Results {
+						if rv != v {
+							continue
+						}
+						for _, e := range ir.Callers(c.G, fn) {
+							if e.Site == nil || !c.P.IsLib(e.Caller.Func) {
+								continue
+							}
+							cv, ok := e.Site.(*ssa.Call)
+							if !ok {
+								continue
+							}
+							nv := ssa.Value(cv)
+							if len(x.Results) > 1 {
+								nv = nil
+								for _, cr := range *cv.Referrers() {
+									if ex, ok := cr.(*ssa.Extract); ok && ex.Index == i {
+										nv = ex
+									}
+								}
+							}
+							uses(nv, e.Caller.Func, d+1, via+", returned by "+fname(fn))
+						}
+					}
+				case ssa.CallInstruction:
+					cc := x.Common()
+					if b, ok := cc.Value.(*ssa.Builtin); ok {
+						if b.Name() == "len" {
+							check(x, fn, "len", via)
+						}
+						continue
+					}
+					for _, callee := range ir.Callees(c.G, x) {
+						if !c.P.IsLib(callee) {
+							continue
+						}
+						args := cc.Args
+						off := 0
+						if cc.IsInvoke() {
+							off = 1
+						}
+						for i, a := range args {
+							if a == v && i+off < len(callee.Params) {
+								if _, isGo := x.(*ssa.Go); isGo {
+									uses(callee.Params[i+off], callee, d+1, via+", handed to the goroutine "+fname(callee))
+								} else {
+									uses(callee.Params[i+off], callee, d+1, via+", passed to "+fname(callee))
+								}
+							}
+						}
+					}
+				}
+			}
+		}
+		for _, a := range g.Accesses {
+			if a.Kind != "load" || a.Init || a.Local {
+				continue
+			}
+			if ld, ok := a.Instr.(*ssa.UnOp); ok {
+				uses(ld, a.Fn, 0, "")
+			}
+		}
+	}
+	c.R.Min("R-guarded-value", 5)
 }
